@@ -86,7 +86,8 @@ func MatchMain(eng *Engine) (bind inputrc.Bind, command func(), prefix bool) {
 	// multibyte (UTF-8) character never match anything: when the bytes
 	// we just read are the start of one, gather the whole character and
 	// insert it if the keymap is one in which unbound text is inserted.
-	if command == nil && !prefix && len(read) > 0 && read[0] >= utf8.RuneSelf &&
+	// (A sequence bound to a macro has no command either, but did match.)
+	if command == nil && !prefix && !bind.Macro && len(read) > 0 && read[0] >= utf8.RuneSelf &&
 		(eng.IsEmacs() || eng.main == ViInsert || eng.nonIncSearch) {
 		bind, command, prefix = eng.matchMultibyte(read)
 	}
